@@ -225,7 +225,13 @@ impl Watch {
                 if used != model {
                     let leaked: Vec<&u64> = used.iter().filter(|x| !model.contains(x)).collect();
                     let cls = if !leaked.is_empty() { "id-retained-unannounced" } else { "id-freed-unannounced" };
-                    self.flag(&["C08"], format!("{cls}/{}", what.split(|c| c == '(' || c == ' ').next().unwrap_or("")), format!("{what}: ids in use in the library {:?} but the announced history says {:?}", used, model));
+                    // the same step may have lost stored packets as well (C06's concern)
+                    let store_too = !skip_store && {
+                        let actual = self.ep.stored();
+                        actual.len() != self.m.store.len() || actual.iter().zip(self.m.store.iter()).any(|(a, b)| *a != b.pkt)
+                    };
+                    let props: &[&'static str] = if store_too { &["C08", "C06"] } else { &["C08"] };
+                    self.flag(props, format!("{cls}/{}", what.split(|c| c == '(' || c == ' ').next().unwrap_or("")), format!("{what}: ids in use in the library {:?} but the announced history says {:?}{}", used, model, if store_too { "; the exported store has changed as well" } else { "" }));
                     return;
                 }
             }
